@@ -279,7 +279,8 @@ Section FieldSem.
   Definition cvK (c : cv) : K := match c with CZ z => of_Z z | _ => k0 end.
   Definition named (f : fn) (n : string) : bool := String.eqb (fname f) n.
 
-  (* backends.sum / mean / divide on scalars of the field *)
+  (* backends.sum / mean / divide / subtract / pow (2 and 0.5) / std on scalars of the field;
+     sqrt is uninterpreted *)
   Definition apK (f : fn) (vs : list K) (ex : list cv) (kw : kwargs) : K :=
     if named f "sum" then sumK vs
     else if named f "mean" then kdiv (sumK vs) (nat2K (List.length vs))
@@ -289,6 +290,21 @@ Section FieldSem.
       | [v; w], [] => kdiv v w
       | _, _ => other f vs ex kw
       end
+    else if named f "subtract" then
+      match vs, ex with
+      | [v; w], [] => ksub v w
+      | _, _ => other f vs ex kw
+      end
+    else if named f "pow" then
+      match vs, ex with
+      | [v], [CZ 2%Z] => kmul v v
+      | [v], [CHalf] => ksqrt v
+      | _, _ => other f vs ex kw
+      end
+    else if named f "std" then
+      let n := nat2K (List.length vs) in
+      let mu := kdiv (sumK vs) n in
+      ksqrt (kdiv (sumK (map (fun x => sq K kmul (ksub x mu)) vs)) n)
     else other f vs ex kw.
 
   Notation evK := (ev K srcK apK).
